@@ -3,6 +3,7 @@ truncation / extension / single-bit corruption under CRC / dangling, backward, s
 import base64
 
 from ..gen import cells as G
+from ..translate import bocheader
 
 SPEC = dict(
     manifest=dict(
@@ -26,6 +27,7 @@ SPEC = dict(
                    'CRC theorem uses the translated crc32c (C18 tie). Input-form detection (hex/base64 text) is modelled for canonical texts only.',
         technique='Lean 4 proof (hand model) + differential correspondence with the library',
     ),
+    translators=[('deserialize.py Boc.deserialize_boc_header (+utils.bytes_to_uint, magics)->Generated/BocHeader.lean', bocheader.regenerate)],
     design_ref='DESIGN.md §6 C05',
     rule='DAGs (ordinary with sharing, exotic trees with pruned branches / Merkle cells / library cells, chains, 255..257-cell bags, cell data of '
          '255/256 bytes total) x freedoms drawn from the seed (magic, size min..4, off min..8, idx, crc, cache bits + per-cell flag, per-cell '
@@ -566,10 +568,83 @@ def tuned_tot(rng, target):
     return nodes
 
 
+# ----------------------------------------------------------------------------- search after a broken source obligation
+
+def boundary_inputs(rng):
+    """Conforming bags written with every constructor / flag / width combination, and their corruptions, each with the
+    oracle that judges it: [(tag, bytes, oracle(ctx))]."""
+    out = []
+    dags = [[(G.ORD, '10101010', ())],
+            [(G.ORD, '', ()), (G.ORD, G.rand_bits(rng, 13), (0,)), (G.ORD, G.rand_bits(rng, 24), (1, 0))]]
+    for di, nodes in enumerate(dags):
+        spec = G.spec_dag(nodes)
+        n = len(nodes)
+        order = list(range(n - 1, -1, -1))
+        recs = listing(nodes, spec, order)
+        for magic in 'gic':
+            for size in (1, 2, 4):
+                for off in (1, 2, 8):
+                    combos = [(i, c, k) for i in (False, True) for c in (False, True) for k in ((False, True) if i else (False,))] \
+                        if magic == 'g' else [(True, False, False)]
+                    for idx, crc, cache in combos:
+                        roots_sets = [[n - 1]] + ([[n - 1, 0]] if magic == 'g' and n > 1 and size == 1 else [])
+                        for roots in roots_sets:
+                            fr = dict(magic=magic, size=size, off=off, idx=idx, crc=crc, cache=cache, store=[], cflags=[])
+                            case = dict(nodes=nodes, order=order, roots=roots, recs=recs, rpos=[order.index(r) for r in roots], fr=fr)
+                            data = py_encode(recs, case['rpos'], fr)
+                            tag = f'src-{magic}-{size}-{off}-{int(idx)}{int(crc)}{int(cache)}-d{di}r{len(roots)}'
+                            out.append((tag, data, lambda ctx, case=case, spec=spec, tag=tag: check_accept(ctx, case, spec, tag, use_lean_encoder=False)))
+                            with_crc = crc if magic == 'g' else magic == 'c'
+                            if di == 0 or (size == 1 and off == 1):
+                                inp = case_input(case, tag=tag, original=data.hex())
+                                for k in range(len(data)):
+                                    out.append((tag + f'-trunc{k}', data[:k],
+                                                lambda ctx, d=data[:k], k=k, inp=inp, m=magic, L=len(data): must_reject(
+                                                    ctx, d, f'trunc:{m}', f'truncated encoding ({k} of {L} bytes) accepted', inp)))
+                                for ext in (b'\x00', b'\xff\x00', bytes(4)):
+                                    out.append((tag + f'-ext{len(ext)}', data + ext,
+                                                lambda ctx, d=data + ext, inp=inp, m=magic, e=len(ext): must_reject(
+                                                    ctx, d, f'ext:{m}', f'encoding extended by {e} bytes accepted', inp)))
+                                if with_crc and di == 0 and size == 1:
+                                    for bit in range(8 * len(data)):
+                                        d = bytearray(data)
+                                        d[bit // 8] ^= 128 >> (bit % 8)
+                                        region = 'magic' if bit < 32 else 'flags' if bit < 48 else 'crc' if bit >= 8 * (len(data) - 4) else 'body'
+                                        out.append((tag + f'-flip{bit}', bytes(d),
+                                                    lambda ctx, d=bytes(d), bit=bit, inp=inp, region=region: must_reject(
+                                                        ctx, d, f'flip:{region}', f'CRC-protected encoding accepted after flipping bit {bit}', dict(inp, bit=bit))))
+    return out
+
+
+def src_search(ctx):
+    """A c05_src_* obligation broke: evaluate, in Lean, the regenerated header parser against the hand model on boundary
+    bags and their corruptions; judge the differing inputs first (conformance / rejection oracle), then the whole grid."""
+    grid = boundary_inputs(ctx.rng)
+    seen = set()
+    uniq = []
+    for t in grid:
+        if t[1] not in seen:
+            seen.add(t[1])
+            uniq.append(t)
+    differing = {d for _, d in bocheader.diff_inputs(ctx, [(t, d) for t, d, _ in uniq])}
+    ctx.count('src-search-grid', len(uniq))
+    ctx.count('src-search-differing', len(differing))
+    first = [t for t in uniq if t[1] in differing]
+    rest = [t for t in uniq if t[1] not in differing]
+    for tag, d, oracle in first + rest:
+        ctx.case(('src', d), nontrivial=False)
+        oracle(ctx)
+        if ctx.failures and tag.count('-') >= 0 and len(ctx.failures) >= 3:
+            break
+    return bool(ctx.failures)
+
+
 # ----------------------------------------------------------------------------- run
 
 def run(ctx):
     rng = ctx.rng
+    if ctx.search and src_search(ctx):
+        return
     hand_cases(ctx)
 
     n_pos = ctx.n(700, 4000)
